@@ -23,7 +23,7 @@ var R = hx.NewRecorder("C05", "cases = (key, block, direction, buffer layout) an
 	"non-trivial = key not constant-byte; distinct by hash of (key, block, op)")
 
 func TestMain(m *testing.M) {
-	R.Require("sbox_sweep_complete", "dst==src", "history>=3", "badkeylen")
+	R.Require("key_buffer_reuse", "sbox_sweep_complete", "dst==src", "history>=3", "badkeylen")
 	R.Assume("ref/rsm4 reproduces both GM/T 0002 vectors (TestRefSelf in setup; single-block vector re-checked here)")
 	hx.Main(m, R)
 }
@@ -222,6 +222,50 @@ func TestC05_History(t *testing.T) {
 		}
 		R.Case(!constKey(key) && steps >= 2, hx.HashKey(key, fmt.Sprint(hist)), cl...)
 		R.Sample("history", map[string]interface{}{"key": hx.Hex(key), "ops": hist})
+	})
+}
+
+// One key buffer rewritten in place between NewCipher calls (and after them): every cipher object must be keyed with
+// the bytes the buffer held when it was created, not with an earlier or later content of the same array.
+func TestC05_KeyBufferReuse(t *testing.T) {
+	refSelf(t)
+	hx.Check(t, hx.N(1500, 20000), func(t *rapid.T) {
+		buf := make([]byte, 16, 16+rapid.IntRange(0, 8).Draw(t, "spare"))
+		n := rapid.IntRange(2, 5).Draw(t, "nkeys")
+		blk := gen.BytesN(16).Draw(t, "block")
+		var keys [][]byte
+		var objs []cipher.Block
+		for i := 0; i < n; i++ {
+			k := gen.BytesN(16).Draw(t, "key")
+			if i > 0 && rapid.Bool().Draw(t, "onebit") {
+				// a one-bit neighbour of the previous key
+				k = append([]byte{}, keys[i-1]...)
+				k[rapid.IntRange(0, 15).Draw(t, "byte")] ^= 1 << uint(rapid.IntRange(0, 7).Draw(t, "bit"))
+			}
+			copy(buf, k)
+			c, err := sm4.NewCipher(buf)
+			if err != nil {
+				t.Fatalf("NewCipher: %v", err)
+			}
+			keys, objs = append(keys, k), append(objs, c)
+			// every object made so far, including those whose key buffer has since been overwritten
+			for j, o := range objs {
+				want, got := make([]byte, 16), make([]byte, 16)
+				rsm4.Must(keys[j]).Encrypt(want, blk)
+				o.Encrypt(got, blk)
+				if !bytes.Equal(got, want) {
+					t.Fatalf("cipher #%d (key %x, created from a buffer that now holds key #%d %x): Encrypt(%x) = %x, GM/T 0002 gives %x", j, keys[j], i, k, blk, got, want)
+				}
+				o.Decrypt(got, want)
+				if !bytes.Equal(got, blk) {
+					t.Fatalf("cipher #%d (key %x) after the key buffer was rewritten: Decrypt does not invert", j, keys[j])
+				}
+			}
+			if !bytes.Equal(buf, k) {
+				t.Fatalf("NewCipher modified the caller's key buffer")
+			}
+		}
+		R.Case(true, hx.HashKey("reuse", keys, blk), "key_buffer_reuse")
 	})
 }
 
